@@ -50,7 +50,12 @@ use std::fs;
 use std::io::{self, Read, Seek, SeekFrom, Write};
 use std::mem::size_of;
 use std::path::{Path, PathBuf};
+#[cfg(not(cfb_verif))]
 use std::sync::{Arc, RwLock, RwLockReadGuard, RwLockWriteGuard};
+#[cfg(cfb_verif)]
+use crate::internal::sync::{RwLock, RwLockReadGuard, RwLockWriteGuard};
+#[cfg(cfb_verif)]
+use std::sync::Arc;
 
 use fnv::FnvHashSet;
 use uuid::Uuid;
@@ -65,6 +70,20 @@ pub use crate::internal::{Entries, Entry, Stream, Version};
 
 #[macro_use]
 mod internal;
+
+/// Verification hooks (only compiled with `--cfg cfb_verif`).
+#[cfg(cfb_verif)]
+#[allow(missing_docs)]
+pub mod verif {
+    pub use crate::internal::path::{
+        compare_names, name_chain_from_path, validate_name, verif_uppercase,
+    };
+    pub use crate::internal::sync::{
+        held_depth, set_pause_hook, set_thread_tag, trace_start, trace_take,
+        LockEvent,
+    };
+    pub use crate::internal::verif_clock_set;
+}
 
 //===========================================================================//
 
